@@ -442,6 +442,28 @@ fn run_isolated<E: Engine>(e: &E, opts: &Opts) -> Vec<Option<RunOut>> {
 /// per-run digests (every library result, token byte string, event and counter of the run):
 /// the determinism proof compares them across repetitions, worker counts and processes
 pub fn digests<E: Engine>(e: &E, seed: u64, runs: usize, threads: usize) -> Vec<(u64, u64)> {
+    if e.isolate() {
+        // engines whose cases may kill their process: same supervised workers as the check; the
+        // digest covers the case, everything the worker recorded and how a dead worker died
+        let opts = Opts { tier: "digest".to_string(), seed, runs, threads, verif_dir: String::new() };
+        return run_isolated(e, &opts)
+            .into_iter()
+            .enumerate()
+            .map(|(i, r)| {
+                let run_seed = mix(seed, i as u64);
+                let case = e.generate(run_seed);
+                let case_digest = fnv(serde_json::to_string(&case).unwrap_or_default().as_bytes());
+                let ro = r.unwrap_or_default();
+                let mut d = mix(case_digest, ro.stats.digest);
+                d = mix(d, fnv(ro.stats.trace.join("\n").as_bytes()));
+                d = mix(d, fnv(format!("{:?}", ro.stats.counters).as_bytes()));
+                for v in &ro.violations {
+                    d = mix(d, fnv(format!("{}|{}|{}", v.property, v.class, v.detail).as_bytes()));
+                }
+                (run_seed, d)
+            })
+            .collect();
+    }
     let next = AtomicUsize::new(0);
     let out: Mutex<Vec<(u64, u64)>> = Mutex::new(vec![(0, 0); runs]);
     std::thread::scope(|s| {
